@@ -161,7 +161,13 @@ impl From<core::time::Duration> for Duration {
 
 impl From<Duration> for core::time::Duration {
     fn from(x: Duration) -> Self {
-        core::time::Duration::new(x.sec as u64, x.nanosec)
+        // core::time::Duration cannot represent negative durations: they are clamped to zero
+        // (an overdue deadline means "now", not a sleep of 2^64 seconds)
+        if x.sec < 0 {
+            core::time::Duration::ZERO
+        } else {
+            core::time::Duration::new(x.sec as u64, x.nanosec)
+        }
     }
 }
 
